@@ -97,3 +97,37 @@ def run(S):
             'an accepted update never advertises an htlc_maximum above the known channel capacity', [b])
     S.no_panic('C17.a.nopanic', E, [], 'the acceptance closures are total (no overflow in capacity*1000 for any u64 capacity)', [b])
     S.witness('C17.a.witness', E, pre + [addressed_has, cap_some], ok)
+    node_announcements(S, D)
+
+
+def node_announcements(S, D):
+    """C17.b: a node_announcement never replaces information with an older or equal timestamp, on the
+    signed and on the unsigned (rapid-gossip-sync / replay) path alike, and is refused for unknown nodes"""
+    E = S.engine()
+    E.slice_cap = 2          # excess data / address vectors of <= 2 elements (only their lengths are inspected)
+    mem = {}
+    f = S.fn('update_node_from_announcement_intern')
+    found, has_info = z3.Bool('env.node_found'), z3.Bool('env.has_announcement_info')
+    last = E.sym('env.last_update', 'u32')
+    node = X.Adt('NodeInfo', {}, base='node')
+    cn = E.new_cell()
+    mem[cn] = node
+    E.models.insert(0, (re.compile(r'IndexedMap::<.*>::get_mut$'), lambda *a: X.En('Option', z3.If(found, 1, 0), {1: [X.Ref(cn)]})))
+    E.models.insert(0, (re.compile(r'NodeAnnouncementInfo::last_update$'), lambda *a: last))
+    E.models.insert(0, (re.compile(r'check_hold_pending_node_announcement$'), lambda *a: X.En('Result', z3.If(z3.Bool('env.pending_ok'), 0, 1), {0: [X.UNIT], 1: [X.Opaque('err')]})))
+    E.models.insert(0, (re.compile(r'as Clone>::clone$'), lambda E_, m, func, argv, *r: X.Opaque('clone')))
+    args = [E.sym('a%d' % n, t, mem) for n, t in f.params]
+    # the stored announcement info: present iff has_info
+    ai_idx = D.field_index('NodeInfo', 'announcement_info')
+    ai = E.read_path(mem[cn], (('f', ai_idx, 'Option<routing::gossip::NodeAnnouncementInfo>'),), mem, True, 'spec')
+    E.assume(X.zint(ai.d) == z3.If(has_info, 1, 0))
+    rv = S.call(E, f, args, mem)
+    ret = S.ret_guard
+    ok = z3.And(ret, X.zint(rv.d) == 0)
+    ts = field(E, D, 'UnsignedNodeAnnouncement', 'timestamp', mem[args[1].cell], 'u32').t
+    b = Binding('node_announcement_probe', [found, has_info, z3.If(has_info, last.t, 0), ts], [z3.If(ok, 1, 0)], parse=lambda t: [int(t[0])])
+    S.prove('C17.b.node_newer_only', E, [], ok == z3.And(found, z3.Or(z3.Not(has_info), ts > last.t)),
+            'a node_announcement is applied iff the node is known (has a channel) and its timestamp is strictly newer than the stored announcement (if any) - independent of whether the signed message accompanies it',
+            [b], bounds='all u32 timestamps; map lookup and stored info abstracted')
+    S.no_panic('C17.b.nopanic', E, [], 'total', [b])
+    S.witness('C17.b.witness', E, [has_info], ok)
